@@ -198,8 +198,12 @@ func (cpu *CPU) Run(ctx context.Context) error {
 // Step executes an instruction.
 func (cpu *CPU) Step() {
 	// try interruptions.
-	if cpu.Interrupt != nil && cpu.processInterrupt() {
-		cpu.Interrupt = nil
+	if it := cpu.Interrupt; it != nil && cpu.processInterrupt() {
+		// Memory callbacks may raise a new interruption while this one is
+		// being accepted. Keep it for the next Step.
+		if cpu.Interrupt == it {
+			cpu.Interrupt = nil
+		}
 		return
 	}
 	// execute an op-code.
@@ -243,10 +247,11 @@ func (cpu *CPU) processInterrupt() bool {
 	case 2:
 		// Interrupt with IM 2
 		if len(cpu.Interrupt.Data) > 0 {
+			n := cpu.Interrupt.Data[0]
 			cpu.SP -= 2
 			cpu.writeU16(cpu.SP, cpu.PC)
 			// The LSB of interruption vector is ignored in IM 2
-			cpu.PC = cpu.readU16(toU16(cpu.Interrupt.Data[0]&0xfe, cpu.IR.Hi))
+			cpu.PC = cpu.readU16(toU16(n&0xfe, cpu.IR.Hi))
 			cpu.IFF1 = false
 			cpu.IFF2 = false
 		}
